@@ -208,200 +208,304 @@ struct Framing {
     }
 };
 
-// ---------------------------------------------------------------------------------- Rpc
-struct RpcCase {
-    Kind kind;
-    tbox::event::Loop *loop = nullptr;
-    std::shared_ptr<Proto> proto, peer;
-    std::unique_ptr<Rpc> rpc;
-    std::vector<std::string> evs;
-    int n_tag = 0;
+// ---------------------------------------------------------------------------------- user code = scripts
+// Act: q a=script b=method | n a=method | r a=id b=code | c a=code | i lit b=code | v a=method b=handler (none: empty) | x
+struct Act { char k = 0; int a = 0, b = 0; std::string lit; bool none = false; };
+struct Handler { bool sync = true; int code = 0; std::vector<Act> acts; };
 
-    static void pump(Proto *p, const std::string &bytes) {   // whole messages: one frame per call
-        std::string buf = bytes;
-        for (;;) {
-            if (buf.empty()) return;
-            ssize_t r = recvExact(p, buf);
-            if (r <= 0 || (size_t)r > buf.size()) return;
-            buf.erase(0, r);
-        }
+static bool natLe(const std::string &w, uint64_t max, int &o) {
+    uint64_t v; if (w.size() > 9 || !vh::to_u64(w, v) || v > max) return false; o = (int)v; return true;
+}
+static bool parseAct(const std::string &t, Act &a) {
+    if (t.empty()) return false;
+    a.k = t[0];
+    std::string r = t.substr(1);
+    size_t p = r.find(t[0] == 'q' ? '.' : ':');
+    switch (t[0]) {
+        case 'q': return p != std::string::npos && natLe(r.substr(0, p), 99, a.a) && natLe(r.substr(p + 1), 7, a.b);
+        case 'n': return natLe(r, 7, a.a);
+        case 'r': return p != std::string::npos && i32(r.substr(0, p), a.a) && i32(r.substr(p + 1), a.b);
+        case 'c': return i32(r, a.a);
+        case 'i': if (p == std::string::npos) return false;
+                  a.lit = r.substr(0, p);
+                  return jsonInt(a.lit) && i32(r.substr(p + 1), a.b);
+        case 'v': if (p == std::string::npos || !natLe(r.substr(0, p), 7, a.a)) return false;
+                  if (r.substr(p + 1) == "-") { a.none = true; return true; }
+                  return natLe(r.substr(p + 1), 99, a.b);
+        case 'x': return r.empty();
+        default:  return false;
     }
-    RpcCase(const Kind &k, int n) : kind(k) {
-        loop = tbox::event::Loop::New();
-        proto = newProto(k); peer = newProto(k);
+}
+
+struct Prog {
+    std::vector<std::vector<Act>> cbs;
+    std::vector<Handler> hds;
+    bool started = false;       // a non-definition op was accepted: no more definitions
+
+    static bool isDef(const std::vector<std::string> &w) { return w[0] == "cb" || w[0] == "hd"; }
+    // a definition line; false = bad-op (nothing changes)
+    bool define(const std::vector<std::string> &w) {
+        if (started) return false;
+        size_t from = 1;
+        Handler h;
+        if (w[0] == "hd") {
+            if (w.size() < 2 || hds.size() >= 16) return false;
+            if (w[1] == "as") { h.sync = false; h.code = 0; }
+            else if (w[1].size() >= 2 && w[1][0] == 's' && i32(w[1].substr(1), h.code)) h.sync = true;
+            else return false;
+            from = 2;
+        } else if (cbs.size() >= 16) return false;
+        std::vector<Act> acts;
+        for (size_t i = from; i < w.size(); ++i) {
+            Act a; if (!parseAct(w[i], a)) return false;
+            acts.push_back(a);
+        }
+        if (w[0] == "hd") { h.acts = acts; hds.push_back(h); } else cbs.push_back(acts);
+        return true;
+    }
+};
+
+static std::string frameOf(const Kind &kind, const std::string &text) {
+    std::string bytes;
+    if (kind.k == 'H') {
+        uint16_t m = kind.magic; uint32_t l = (uint32_t)text.size();
+        bytes.push_back((char)(m >> 8)); bytes.push_back((char)(m & 0xff));
+        bytes.push_back((char)(l >> 24)); bytes.push_back((char)(l >> 16)); bytes.push_back((char)(l >> 8)); bytes.push_back((char)l);
+    }
+    return bytes + text;
+}
+// the peer's response as text (the id literal may be beyond int), framed by hand
+static std::string rspFrame(const Kind &kind, const std::string &idlit, int code) {
+    return frameOf(kind, code == 0
+        ? "{\"id\":" + idlit + ",\"jsonrpc\":\"2.0\",\"result\":7}"
+        : "{\"error\":{\"code\":" + std::to_string(code) + "},\"id\":" + idlit + ",\"jsonrpc\":\"2.0\"}");
+}
+static std::string reqFrame(const Kind &kind, int id, int m) {
+    std::string text = "{\"jsonrpc\":\"2.0\",\"method\":\"m" + std::to_string(m) + "\",\"params\":[1]";
+    if (id != 0) text += ",\"id\":" + std::to_string(id);
+    return frameOf(kind, text + "}");
+}
+static void pump(Proto *p, const std::string &bytes) {   // whole messages: one frame per call
+    std::string buf = bytes;
+    for (;;) {
+        if (buf.empty()) return;
+        ssize_t r = recvExact(p, buf);
+        if (r <= 0 || (size_t)r > buf.size()) return;
+        buf.erase(0, r);
+    }
+}
+
+// Makes a closure too big for std::function's in-place storage: it lives in its own heap block, so a
+// callback object destroyed by the Rpc while it is executing is seen by ASan when the callback goes on.
+struct Pad { long long v[3]; };
+
+// ---------------------------------------------------------------------------------- one Rpc object + its user code
+struct Peer {
+    Kind kind;
+    const Prog *prog;
+    std::shared_ptr<Proto> proto;
+    std::unique_ptr<Rpc> rpc;
+    std::vector<std::string> evs;       // everything that happened at this object, in program order
+    std::vector<std::string> outq;      // frames written (world: in flight to the other peer)
+    bool keep_out = false;
+    int n_tag = 0, n_rsp = 0;
+    bool dead = false;                  // cleanup() was called
+
+    Peer(const Kind &k, tbox::event::Loop *loop, int n, const Prog *pg, bool keep) : kind(k), prog(pg), keep_out(keep) {
+        proto = newProto(k);
         rpc.reset(new Rpc(loop));
         rpc->initialize(proto.get(), n);
-        proto->setSendCallback([this](const void *p, size_t sz) { pump(peer.get(), std::string((const char *)p, sz)); });
-        peer->setSendCallback([this](const void *p, size_t sz) { pump(proto.get(), std::string((const char *)p, sz)); });
-        peer->setRecvCallback(
-            [this](int id, const std::string &, const Json &) { evs.push_back("s" + std::to_string(id)); },
-            [this](int, int, const Json &) { evs.push_back("peer-got-response"); });
-    }
-    ~RpcCase() {
-        rpc->cleanup(); rpc.reset(); proto.reset(); peer.reset();
-        delete loop;
-    }
-    void request(bool chain) {
-        int tag = n_tag++;
-        rpc->request("m", Json::array({1, "x"}), [this, tag, chain](int ec, const Json &) {
-            evs.push_back("f" + std::to_string(tag) + ":" + std::to_string(ec));
-            if (chain) request(false);
+        proto->setSendCallback([this](const void *p, size_t sz) {
+            std::string bytes((const char *)p, sz);
+            evs.push_back(describe(bytes));
+            if (keep_out) outq.push_back(bytes);
         });
     }
-    // returns false for an ill-typed op
-    bool act(const std::vector<std::string> &w) {
-        int code = 0; uint64_t ms = 0;
-        if (w[0] == "req" && w.size() == 2 && (w[1] == "0" || w[1] == "1")) { request(w[1] == "1"); return true; }
-        if (w[0] == "note" && w.size() == 1) { rpc->notify("n"); return true; }
-        if (w[0] == "rsp" && w.size() == 3 && jsonInt(w[1]) && i32(w[2], code)) {
-            // the peer's response as text (the id literal may be beyond int), framed by hand
-            std::string text = code == 0
-                ? "{\"id\":" + w[1] + ",\"jsonrpc\":\"2.0\",\"result\":7}"
-                : "{\"error\":{\"code\":" + std::to_string(code) + "},\"id\":" + w[1] + ",\"jsonrpc\":\"2.0\"}";
-            std::string bytes;
-            if (kind.k == 'H') {
-                uint16_t m = kind.magic; uint32_t l = (uint32_t)text.size();
-                bytes.push_back((char)(m >> 8)); bytes.push_back((char)(m & 0xff));
-                bytes.push_back((char)(l >> 24)); bytes.push_back((char)(l >> 16)); bytes.push_back((char)(l >> 8)); bytes.push_back((char)l);
-            }
-            bytes += text;
-            pump(proto.get(), bytes);
-            return true;
+    Peer(const Peer &) = delete;
+    ~Peer() {
+        if (!dead) rpc->cleanup();
+        rpc.reset(); proto.reset();
+    }
+    std::string describe(const std::string &bytes) const {
+        auto g = Framing::decodeFresh(kind, bytes);
+        if (g.n != 1) return "s?";
+        if (g.type == 's') return "a" + std::to_string(g.id) + ":" + std::to_string(g.ec);
+        if (g.type == 'q' && g.method.size() == 2 && g.method[0] == 'm' && g.method[1] >= '0' && g.method[1] <= '7')
+            return "s" + std::to_string(g.id) + ":" + g.method.substr(1);
+        return "s?";
+    }
+    void misuse() { evs.push_back("misuse"); }
+
+    void request(int script, int m) {
+        if (dead) { misuse(); return; }
+        int tag = n_tag++;
+        Peer *self = this; Pad pad = {{0, 0, 0}};
+        rpc->request("m" + std::to_string(m), Json::array({1}), [self, tag, script, pad](int ec, const Json &) {
+            self->evs.push_back("f" + std::to_string(tag) + ":" + std::to_string(ec));
+            if (script < (int)self->prog->cbs.size())
+                for (size_t i = 0; i < self->prog->cbs[script].size(); ++i)
+                    self->doAct(self->prog->cbs[script][i], 0);
+            (void)*(volatile const long long *)&pad.v[2];       // the callback object is still alive
+        });
+    }
+    void notify(int m) {
+        if (dead) { misuse(); return; }
+        rpc->notify("m" + std::to_string(m));
+    }
+    // all three overloads of respond(): (id, errcode, result), (id, result), (id, errcode)
+    void respond(int id, int code) {
+        if (dead && id != 0) { misuse(); return; }
+        bool three = (n_rsp++ % 2) == 0;
+        if (code == 0) { if (three) rpc->respond(id, 0, Json(7)); else rpc->respond(id, Json(7)); }
+        else { if (three) rpc->respond(id, code, Json()); else rpc->respond(id, code); }
+    }
+    void addService(int m, int h) {     // h < 0 or not defined: an empty function
+        Rpc::ServiceCallback cb;
+        if (h >= 0 && h < (int)prog->hds.size()) {
+            Peer *self = this; Pad pad = {{0, 0, 0}};
+            cb = [self, h, pad](int id, const Json &, int &errcode, Json &result) -> bool {
+                self->evs.push_back("c" + std::to_string(id) + ":" + std::to_string(h));
+                for (size_t i = 0; i < self->prog->hds[h].acts.size(); ++i)
+                    self->doAct(self->prog->hds[h].acts[i], id);
+                (void)*(volatile const long long *)&pad.v[2];   // the handler object is still alive
+                const Handler &hd = self->prog->hds[h];
+                errcode = hd.code; result = 7;
+                return hd.sync;
+            };
         }
-        if (w[0] == "adv" && w.size() == 2 && vh::to_u64(w[1], ms) && ms <= 100000) { vt::advance_ms((int64_t)ms); return true; }
+        rpc->addService("m" + std::to_string(m), std::move(cb));
+    }
+    void cleanup() {
+        if (dead) { misuse(); return; }
+        dead = true;
+        rpc->cleanup();
+    }
+    void feed(const std::string &bytes) { pump(proto.get(), bytes); }
+
+    void doAct(const Act &a, int cur_id) {
+        switch (a.k) {
+            case 'q': request(a.a, a.b); break;
+            case 'n': notify(a.a); break;
+            case 'r': respond(a.a, a.b); break;
+            case 'c': respond(cur_id, a.a); break;
+            case 'i': feed(rspFrame(kind, a.lit, a.b)); break;
+            case 'v': addService(a.a, a.none ? -1 : a.b); break;
+            case 'x': cleanup(); break;
+        }
+    }
+
+    // one of req/note/rsp/inreq/srsp/svc/cleanup, words from w[o]; false for an ill-typed op
+    bool op(const std::vector<std::string> &w, size_t o) {
+        if (w.size() <= o) return false;
+        size_t n = w.size() - o; const std::string &c = w[o];
+        int a = 0, b = 0;
+        if (c == "req" && n == 3 && natLe(w[o + 1], 99, a) && natLe(w[o + 2], 7, b)) { request(a, b); return true; }
+        if (c == "note" && n == 2 && natLe(w[o + 1], 7, a)) { notify(a); return true; }
+        if (c == "rsp" && n == 3 && jsonInt(w[o + 1]) && i32(w[o + 2], b)) { feed(rspFrame(kind, w[o + 1], b)); return true; }
+        if (c == "inreq" && n == 3 && i32(w[o + 1], a) && natLe(w[o + 2], 7, b)) { feed(reqFrame(kind, a, b)); return true; }
+        if (c == "srsp" && n == 3 && i32(w[o + 1], a) && i32(w[o + 2], b)) { respond(a, b); return true; }
+        if (c == "svc" && n == 3 && natLe(w[o + 1], 7, a)) {
+            if (w[o + 2] == "-") { addService(a, -1); return true; }
+            if (natLe(w[o + 2], 99, b)) { addService(a, b); return true; }
+            return false;
+        }
+        if (c == "cleanup" && n == 1) { cleanup(); return true; }
         return false;
     }
-    void flush() {
-        std::string out = "P ev";
-        if (evs.empty()) out += " -";
+    std::string take() {
+        std::string out;
+        if (evs.empty()) out = " -";
         for (auto &e : evs) out += " " + e;
         evs.clear();
-        say(out);
+        return out;
     }
+};
+
+static bool advOp(const std::vector<std::string> &w) {
+    uint64_t ms = 0;
+    if (w[0] == "adv" && w.size() == 2 && vh::to_u64(w[1], ms) && ms <= 100000) { vt::advance_ms((int64_t)ms); return true; }
+    return false;
+}
+
+// ---------------------------------------------------------------------------------- Rpc
+struct RpcCase {
+    Prog prog;
+    tbox::event::Loop *loop = nullptr;
+    std::unique_ptr<Peer> p;
+
+    RpcCase(const Kind &k, int n) {
+        loop = tbox::event::Loop::New();
+        p.reset(new Peer(k, loop, n, &prog, false));
+    }
+    ~RpcCase() { p.reset(); delete loop; }
+    // returns false for an ill-typed op
+    bool act(const std::vector<std::string> &w) { return advOp(w) || p->op(w, 0); }
+    void flush() { say("P ev" + p->take()); }
 };
 
 // ------------------------------------------------------------------ two Rpc peers, scripted pipe
 struct WorldCase {
-    Kind kind;
+    Prog prog;
     tbox::event::Loop *loop = nullptr;
-    std::shared_ptr<Proto> pa, pb;
-    std::unique_ptr<Rpc> A, B;              // A: client peer, B: server peer
-    std::vector<std::string> cs, sc;        // frames in flight
-    std::vector<std::string> cev, sev;
-    int n_tag = 0, n_srsp = 0;
+    std::unique_ptr<Peer> a, b;
 
-    WorldCase(const Kind &k, int nc, int ns) : kind(k) {
+    WorldCase(const Kind &k, int na, int nb) {
         loop = tbox::event::Loop::New();
-        pa = newProto(k); pb = newProto(k);
-        A.reset(new Rpc(loop)); B.reset(new Rpc(loop));
-        A->initialize(pa.get(), nc); B->initialize(pb.get(), ns);
-        pa->setSendCallback([this](const void *p, size_t sz) {
-            std::string bytes((const char *)p, sz);
-            auto g = Framing::decodeFresh(kind, bytes);
-            cev.push_back(g.n == 1 && g.type == 'q' ? "s" + std::to_string(g.id) + ":" + g.method : "s?");
-            cs.push_back(bytes);
-        });
-        pb->setSendCallback([this](const void *p, size_t sz) {
-            std::string bytes((const char *)p, sz);
-            auto g = Framing::decodeFresh(kind, bytes);
-            sev.push_back(g.n == 1 && g.type == 's' ? "r" + std::to_string(g.id) + ":" + std::to_string(g.ec) : "r?");
-            sc.push_back(bytes);
-        });
-        auto svc = [this](int code, bool sync) {
-            return [this, code, sync](int id, const Json &, int &errcode, Json &result) {
-                sev.push_back("c" + std::to_string(id));
-                errcode = code; result = 7;
-                return sync;
-            };
-        };
-        B->addService("s0", svc(0, true));
-        B->addService("s5", svc(5, true));
-        B->addService("as", svc(0, false));
+        a.reset(new Peer(k, loop, na, &prog, true));
+        b.reset(new Peer(k, loop, nb, &prog, true));
     }
-    ~WorldCase() {
-        A->cleanup(); B->cleanup(); A.reset(); B.reset(); pa.reset(); pb.reset();
-        delete loop;
-    }
-    void request(bool chain, const std::string &method) {
-        int tag = n_tag++;
-        A->request(method, Json::array({1}), [this, tag, chain](int ec, const Json &) {
-            cev.push_back("f" + std::to_string(tag) + ":" + std::to_string(ec));
-            if (chain) request(false, "s0");
-        });
-    }
-    static bool svcTok(const std::string &m) { return m == "s0" || m == "s5" || m == "as" || m == "no"; }
+    ~WorldCase() { a.reset(); b.reset(); delete loop; }
     bool act(const std::vector<std::string> &w) {
-        int id = 0, code = 0; uint64_t n = 0;
-        if (w[0] == "req" && w.size() == 3 && (w[1] == "0" || w[1] == "1") && svcTok(w[2])) { request(w[1] == "1", w[2]); return true; }
-        if (w[0] == "note" && w.size() == 2 && svcTok(w[1])) { A->notify(w[1]); return true; }
-        if ((w[0] == "dlv" || w[0] == "drop" || w[0] == "dup") && w.size() == 3 && (w[1] == "cs" || w[1] == "sc") && vh::to_u64(w[2], n)) {
-            bool to_server = w[1] == "cs";
-            auto &q = to_server ? cs : sc;
+        uint64_t n = 0;
+        if (w[0] == "a") return a->op(w, 1);
+        if (w[0] == "b") return b->op(w, 1);
+        if ((w[0] == "dlv" || w[0] == "drop" || w[0] == "dup") && w.size() == 3 && (w[1] == "ab" || w[1] == "ba") &&
+            w[2].size() <= 9 && vh::to_u64(w[2], n)) {
+            bool ab = w[1] == "ab";
+            auto &q = ab ? a->outq : b->outq;
             if (n >= q.size()) return true;       // nothing there: no-op
             if (w[0] == "dup") { q.push_back(q[n]); return true; }
             std::string bytes = q[n];
             q.erase(q.begin() + n);
-            if (w[0] == "dlv") RpcCase::pump(to_server ? pb.get() : pa.get(), bytes);
+            if (w[0] == "dlv") (ab ? b : a)->feed(bytes);
             return true;
         }
-        if (w[0] == "srsp" && w.size() == 3 && i32(w[1], id) && i32(w[2], code)) {
-            // all three overloads of respond(): (id, errcode, result), (id, result), (id, errcode)
-            bool three = (n_srsp++ % 2) == 0;
-            if (code == 0) { if (three) B->respond(id, 0, Json(7)); else B->respond(id, Json(7)); }
-            else { if (three) B->respond(id, code, Json()); else B->respond(id, code); }
-            return true;
-        }
-        if (w[0] == "adv" && w.size() == 2 && vh::to_u64(w[1], n) && n <= 100000) { vt::advance_ms((int64_t)n); return true; }
-        return false;
+        return advOp(w);
     }
-    void flush() {
-        std::string out = "P ev";
-        if (cev.empty()) out += " -";
-        for (auto &e : cev) out += " " + e;
-        out += " |";
-        if (sev.empty()) out += " -";
-        for (auto &e : sev) out += " " + e;
-        cev.clear(); sev.clear();
-        say(out);
-    }
+    void flush() { std::string out = "P ev" + a->take(); out += " |" + b->take(); say(out); }
 };
 
-static void runWorldCase(const Kind &k, int nc, int ns, const std::vector<std::string> &ops) {
-    WorldCase wc(k, nc, ns);
-    say("P world");
+// Definition lines first (no loop pass), then one op per loop pass:
+// phase 0: perform op idx; the loop then makes one full pass (expired timers run); phase 1: print what happened
+template <class Case>
+static void runScripted(Case &c, const std::vector<std::string> &ops) {
     if (ops.empty()) return;
     size_t idx = 0; int phase = 0;
-    vh::LoopDriver drv(wc.loop);
+    vh::LoopDriver drv(c.loop);
     drv.step = [&]() -> bool {
         if (phase == 0) {
             auto w = vh::words(ops[idx]);
-            if (w.empty() || !wc.act(w)) { say("bad-op"); ++idx; return idx < ops.size(); }
+            if (!w.empty() && Prog::isDef(w)) { say(c.prog.define(w) ? "P def" : "bad-op"); ++idx; return idx < ops.size(); }
+            if (w.empty() || !c.act(w)) { say("bad-op"); ++idx; return idx < ops.size(); }
+            c.prog.started = true;
             phase = 1; return true;
         }
-        wc.flush(); phase = 0; ++idx;
+        c.flush(); phase = 0; ++idx;
         return idx < ops.size();
     };
     drv.run();
 }
 
+static void runWorldCase(const Kind &k, int na, int nb, const std::vector<std::string> &ops) {
+    WorldCase wc(k, na, nb);
+    say("P world");
+    runScripted(wc, ops);
+}
+
 static void runRpcCase(const Kind &k, int n, const std::vector<std::string> &ops) {
     RpcCase rc(k, n);
     say("P rpc");
-    if (ops.empty()) return;
-    size_t idx = 0; int phase = 0;
-    vh::LoopDriver drv(rc.loop);
-    drv.step = [&]() -> bool {
-        // phase 0: perform op idx; the loop then makes one full pass (expired timers run);
-        // phase 1: print what happened
-        if (phase == 0) {
-            auto w = vh::words(ops[idx]);
-            if (w.empty() || !rc.act(w)) { say("bad-op"); ++idx; return idx < ops.size(); }
-            phase = 1; return true;
-        }
-        rc.flush(); phase = 0; ++idx;
-        return idx < ops.size();
-    };
-    drv.run();
+    runScripted(rc, ops);
 }
 
 static void runCase(const std::vector<std::string> &lines) {
